@@ -114,6 +114,11 @@ static void run_op(int t, const Op& op) {
                 if (i == live.end()) { ev("stale(%d)", t); break; }   // dangling iterator = UB: not executed
                 auto h = (RangeLock::LockHandle*)i->second; live.erase(i);
                 RL->unlock(h); ev("ret(%d,0)", t); break; }
+    case 'I': { // a wake-up that is not a notification: interrupt the target iff it is parked inside RangeLock
+                Worker& v = W[op.id];
+                if ((int)op.id != t && v.busy && photon::thread_stat(v.th) == photon::SLEEPING) { photon::thread_interrupt(v.th, EINTR); ev("ret(%d,0)", t); }
+                else ev("ret(%d,-1)", t);
+                break; }
     case 'A': { if (op.null_h) { ev("ret(%d,%d)", t, RL->adjust_range(nullptr, op.o, op.l)); break; }
                 auto i = live.find(op.id);
                 if (i == live.end()) { ev("stale(%d)", t); break; }
@@ -176,6 +181,7 @@ static bool parse_op(const std::string& s, Op& op) {
     switch (op.k) {
     case 'T': case 'W': case 'L': case 'U': if (f.size() != 4) return false; op.o = u(f[2]); op.l = u(f[3]); return true;
     case 'H': if (f.size() != 3) return false; op.id = u(f[2]); return true;
+    case 'I': if (f.size() != 3) return false; op.id = u(f[2]); return op.id < (uint64_t)NW;
     case 'A': if (f.size() != 5) return false; if (f[2] == "-") op.null_h = true; else op.id = u(f[2]); op.o = u(f[3]); op.l = u(f[4]); return true;
     }
     return false;
